@@ -53,7 +53,59 @@ func (r RemoveIntersections) processSchema(v *Visitor, schema *ast.Schema) (*ast
 		schema.Objects.Remove(toRemove)
 	}
 
-	return schema, nil
+	if len(r.objectsToRemove) == 0 {
+		return schema, nil
+	}
+
+	// struct fields were handled above, but the removed objects can be
+	// referred to from anywhere: arrays, maps, disjunctions, ...
+	refsVisitor := &Visitor{
+		OnRef: func(_ *Visitor, _ *ast.Schema, def ast.Type) (ast.Type, error) {
+			def.Ref.ReferredType = r.replacementFor(schema, def.Ref.ReferredPkg, def.Ref.ReferredType)
+			return def, nil
+		},
+		OnStruct: func(visitor *Visitor, visitedSchema *ast.Schema, def ast.Type) (ast.Type, error) {
+			var err error
+			for i, field := range def.Struct.Fields {
+				def.Struct.Fields[i], err = visitor.VisitStructField(visitedSchema, field)
+				if err != nil {
+					return ast.Type{}, err
+				}
+			}
+
+			// structs generated from a disjunction keep it as a hint
+			if disjunction, ok := def.Hints[ast.HintDiscriminatedDisjunctionOfRefs].(ast.DisjunctionType); ok {
+				disjunction = disjunction.DeepCopy()
+				for i, branch := range disjunction.Branches {
+					if branch.IsRef() {
+						disjunction.Branches[i].Ref.ReferredType = r.replacementFor(schema, branch.Ref.ReferredPkg, branch.Ref.ReferredType)
+					}
+				}
+				for discriminator, typeName := range disjunction.DiscriminatorMapping {
+					disjunction.DiscriminatorMapping[discriminator] = r.replacementFor(schema, schema.Package, typeName)
+				}
+				def.Hints[ast.HintDiscriminatedDisjunctionOfRefs] = disjunction
+			}
+
+			return def, nil
+		},
+	}
+
+	return refsVisitor.VisitSchema(schema)
+}
+
+// replacementFor returns the name of the object that took the place of a
+// removed object, or the name itself when the object wasn't removed.
+func (r RemoveIntersections) replacementFor(schema *ast.Schema, pkg string, name string) string {
+	if pkg != schema.Package {
+		return name
+	}
+
+	if replacement, removed := r.objectsToRemove[name]; removed && !schema.Objects.Has(name) {
+		return replacement.SelfRef.ReferredType
+	}
+
+	return name
 }
 
 func (r RemoveIntersections) processObject(_ *Visitor, schema *ast.Schema, object ast.Object) (ast.Object, error) {
